@@ -15,7 +15,7 @@ def lineReply (bs : List UInt8) : String :=
   | .error (.data _) => "err data"
   | .ok l =>
     match l.print with
-    | .ok p => s!"ok {lineStr l} print={hexOf p}"
+    | .ok p => s!"ok {lineStr l} print={hexOf p} eq={match Line.parse p with | .ok l2 => decide (l2 = l) | .error _ => false}"
     | .err _ => "ok " ++ lineStr l ++ " print=err"
     | .panic s => s!"panic {s}"
 
@@ -178,7 +178,7 @@ def opsReply (src : List Ev) (ops : List ReaderOp) : String :=
 /-- re-serialise all sections of a stream canonically (`canonBytes`, the object of theorem `C13_file`) -/
 def reserReply (src : List Ev) : String :=
   match Judges.secsOf (Judges.specOf src) with
-  | some ss => "ok " ++ hexOf (canonBytes ss)
+  | some ss => "ok " ++ hexOf (canonBytes ss) ++ s!" eq={Judges.secsOf (Judges.specOf [.chunk (canonBytes ss)]) == some ss}"
   | none => "err"
 
 def handle (line : String) : String :=
